@@ -9,7 +9,7 @@ Local Open Scope nat_scope.
 Section Final.
   Variable c : cfg.
   Let d := cData c.
-  Hypothesis Hhs : has_state (cT c) = true.
+  Hypothesis Hst : state_ok c.
   Hypothesis Hmemo : o_memoize (cO c) = false.
   Hypothesis HG : G_wf c.
   Hypothesis Hstale : stale_ok c.
@@ -39,6 +39,86 @@ Section Final.
       destruct (reval c f H (Some _) inv _ [] g _); reflexivity.
   Qed.
 
+  (* ---------- with state-free blocks the specification never changes the store ---------- *)
+  Section StFree.
+    Variable ev : handlers -> option rule -> bool -> expr -> scope -> rsig -> rmu -> rres.
+    Hypothesis Hev : forall H R inv e sc g m v g' sc' m',
+      ev H R inv e sc g m = ROk v g' sc' m' -> g_st g' = g_st g.
+
+    Lemma rseq_st H R inv es : forall acc sc g m v g' sc' m',
+      rseq ev H R inv es acc sc g m = ROk v g' sc' m' -> g_st g' = g_st g.
+    Proof.
+      induction es as [|x es IHes]; intros acc sc g m v g' sc' m' E; cbn [rseq] in E.
+      - inversion E; reflexivity.
+      - destruct (ev H R inv x sc g m) as [m2|v1 g1 sc1 m2|pv m2 p2 r2|] eqn:E1; try discriminate.
+        rewrite (IHes _ _ _ _ _ _ _ _ E). eapply Hev; eauto.
+    Qed.
+
+    Lemma ralt_st H R inv es : forall sc g m v g' sc' m',
+      ralt ev H R inv es sc g m = ROk v g' sc' m' -> g_st g' = g_st g.
+    Proof.
+      induction es as [|x es IHes]; intros sc g m v g' sc' m' E; cbn [ralt] in E; [discriminate|].
+      destruct (ev H R inv x [] g m) as [m2|v1 g1 sc1 m2|pv m2 p2 r2|] eqn:E1; try discriminate.
+      - eapply IHes; eauto.
+      - inversion E; subst. eapply Hev; eauto.
+    Qed.
+
+    Lemma rrep_st H R inv e : forall k acc g m vs g' m',
+      rrep ev H R inv k e acc g m = RepDone vs g' m' -> g_st g' = g_st g.
+    Proof.
+      induction k as [|k IHk]; intros acc g m vs g' m' E; cbn [rrep] in E; [discriminate|].
+      destruct (ev H R inv e [] g m) as [m2|v1 g1 sc1 m2|pv m2 p2 r2|] eqn:E1; try discriminate.
+      - inversion E; reflexivity.
+      - rewrite (IHk _ _ _ _ _ _ E). eapply Hev; eauto.
+    Qed.
+
+    Lemma rthrow_st H R inv l : forall hs sc g m v g' sc' m',
+      rthrow ev H R inv l hs sc g m = ROk v g' sc' m' -> g_st g' = g_st g.
+    Proof.
+      induction hs as [|[ls rc] hs IHh]; intros sc g m v g' sc' m' E; cbn [rthrow] in E; [discriminate|].
+      destruct (mem_bytes l ls); [|eapply IHh; eauto].
+      destruct (ev H R inv rc [] g m) as [m2|v1 g1 sc1 m2|pv m2 p2 r2|] eqn:E1; try discriminate.
+      - eapply IHh; eauto.
+      - inversion E; subst. eapply Hev; eauto.
+    Qed.
+  End StFree.
+
+  Lemma reval_st_free : env_state_free c -> forall fuel H R inv e sc g m v g' sc' m',
+    reval c fuel H R inv e sc g m = ROk v g' sc' m' -> g_st g' = g_st g.
+  Proof.
+    intros (Fa & Fp & Fs). induction fuel as [|f IH]; intros H R inv e sc g m v g' sc' m' E; [discriminate|].
+    cbn [reval] in E. destruct (over_budget c _); [discriminate|].
+    set (m1 := mkMu (u_gs m) (u_log m) (u_cnt m + 1)%N) in *.
+    destruct e; cbn [reval_body] in E.
+    - destruct (lit_match c R ic val (g_off g) m1) as [[[o' m2]|] mf]; cbn in E; inversion E; reflexivity.
+    - destruct (step_rune c R (g_off g) m1 _) as [[o' m2]|]; cbn in E; inversion E; reflexivity.
+    - destruct (step_rune c R (g_off g) m1 _) as [[o' m2]|]; cbn in E; inversion E; reflexivity.
+    - eapply rseq_st; eauto.
+    - eapply ralt_st; eauto.
+    - destruct (rrep (reval c f) H R inv f e [] g m1) as [vs g1 m2|pv m2 p2 r2|] eqn:Er; try discriminate.
+      inversion E; subst. eapply rrep_st; eauto.
+    - destruct (rrep (reval c f) H R inv f e [] g m1) as [vs g1 m2|pv m2 p2 r2|] eqn:Er; try discriminate.
+      pose proof (rrep_st _ IH _ _ _ _ _ _ _ _ _ _ _ Er) as Hg.
+      destruct vs; inversion E; subst; exact Hg.
+    - destruct (reval c f H R inv e [] g m1) as [m2|v1 g1 sc1 m2|pv m2 p2 r2|] eqn:E1; inversion E; subst; [reflexivity | eapply IH; eauto].
+    - destruct (reval c f H R inv e [] g m1) as [m2|v1 g1 sc1 m2|pv m2 p2 r2|] eqn:E1; inversion E; subst; reflexivity.
+    - destruct (reval c f H R (negb inv) e [] g m1) as [m2|v1 g1 sc1 m2|pv m2 p2 r2|] eqn:E1; inversion E; subst; reflexivity.
+    - destruct (reval c f H R inv e [] g m1) as [m2|v1 g1 sc1 m2|pv m2 p2 r2|] eqn:E1; inversion E; subst. eapply IH; eauto.
+    - destruct (reval c f H R inv e sc g m1) as [m2|v1 g1 sc1 m2|pv m2 p2 r2|] eqn:E1; try discriminate.
+      unfold run_block in E. destruct (ce_act (cE c) c0 _); inversion E; subst. eapply IH; eauto.
+    - unfold run_block in E. destruct (ce_pred (cE c) c0 _) as [ok err st' gs'|]; [|discriminate].
+      destruct ok; inversion E; reflexivity.
+    - unfold run_block in E. destruct (ce_pred (cE c) c0 _) as [ok err st' gs'|]; [|discriminate].
+      destruct ok; inversion E; reflexivity.
+    - unfold run_block in E. pose proof (Fs c0 (block_ctx_ref c c0 [] (pos_of (cData c) (g_off g)) sc g m1)) as Hf.
+      destruct (ce_state (cE c) c0 _) as [ok err st' gs'|]; [|discriminate].
+      inversion E; subst. cbn in *. exact Hf.
+    - destruct r as [|x r]; [discriminate|]. destruct (find_rule (x :: r) (cG c)); [|discriminate].
+      destruct (reval c f H (Some _) inv _ [] g m1) as [m2|v1 g1 sc1 m2|pv m2 p2 r2|] eqn:E1; inversion E; subst. eapply IH; eauto.
+    - eapply IH; eauto.
+    - eapply rthrow_st; eauto.
+  Qed.
+
   (* ---------- the implementation leaves the variable stack as it found it ---------- *)
   Section ClosedImpl.
     Variable wrap : expr -> M (val * bool).
@@ -56,19 +136,29 @@ Section Final.
       destruct r as [v b]. apply I_popV. apply Hs.
     Qed.
 
+    Lemma clone_vstack s x s1 : I c s -> cloneState c s = (x, s1) -> I c s1 /\ vstack s1 = vstack s.
+    Proof.
+      unfold cloneState. intros HI E. destruct (has_state (cT c)); inversion E; subst.
+      - split; [apply I_pool; exact HI | reflexivity].
+      - split; [exact HI | reflexivity].
+    Qed.
+
+    Lemma restoreState_vstack x s : vstack (restoreState c x s) = vstack s.
+    Proof. unfold restoreState. destruct (has_state (cT c)); reflexivity. Qed.
+
     Lemma choice_vstack alts : forall s r s', I c s -> choice_loop c wrap alts s = Ok r s' -> vstack s' = vstack s.
     Proof.
       induction alts as [|a alts IH]; intros s r s' HI Hc; cbn [choice_loop] in Hc.
       - inversion Hc. reflexivity.
-      - unfold bind, modify, ret, cloneState, restoreState in Hc. rewrite Hhs in Hc.
-        set (s1 := set_pool (PoolGet :: pool s) s) in *.
-        assert (HI1 : I c s1) by (apply I_pool; exact HI).
+      - unfold bind, modify, ret in Hc.
+        destruct (cloneState c s) as [x s1] eqn:Ecl.
+        destruct (clone_vstack _ _ _ HI Ecl) as [HI1 Hv1].
         destruct (wrap a (pushV s1)) as [[v b] s2|pv s2|] eqn:Hw; try discriminate.
         pose proof (push_pop_vstack _ _ _ _ HI1 Hw) as Hv.
         pose proof (I_of_push _ _ _ _ HI1 Hw) as HI2.
         destruct b; cbn in Hc.
-        + inversion Hc; subst. exact Hv.
-        + apply IH in Hc; [|destruct HI2; constructor; auto]. rewrite Hc. cbn. exact Hv.
+        + inversion Hc; subst. rewrite Hv. exact Hv1.
+        + apply IH in Hc; [|apply I_restoreState; exact HI2]. rewrite Hc, restoreState_vstack, Hv. exact Hv1.
     Qed.
 
     Lemma rep_vstack e : forall n acc s vs s', I c s -> rep_loop wrap n e acc s = Ok vs s' -> vstack s' = vstack s.
@@ -128,21 +218,24 @@ Section Final.
       - unfold parseZeroOrOneExpr, bind, modify, ret in Hp.
         destruct (wrap e (pushV s1)) as [[v b] s2|pv s2|] eqn:Hw; try discriminate.
         inversion Hp; subst. eapply push_pop_vstack; eauto.
-      - unfold parseAndExpr, bind, modify, ret, cloneState, restoreState in Hp. rewrite Hhs in Hp.
-        set (s1' := set_pool (PoolGet :: pool s1) s1) in *.
+      - unfold parseAndExpr, bind, modify, ret in Hp.
+        destruct (cloneState c s1) as [x s1'] eqn:Ecl.
+        destruct (clone_vstack _ _ _ HI1 Ecl) as [HI1' Hv1].
         destruct (wrap e (pushV s1')) as [[v b] s2|pv s2|] eqn:Hw; try discriminate.
         inversion Hp; subst.
-        match goal with |- vstack (restore ?p ?x) = _ => destruct (restore_other p x) as (_ & _ & _ & _ & Q5 & _); rewrite Q5 end.
-        cbn. apply (push_pop_vstack e s1' _ _ (I_pool c _ _ HI1) Hw).
-      - unfold parseNotExpr, bind, modify, ret, cloneState, restoreState in Hp. rewrite Hhs in Hp.
-        set (s1' := set_pool (PoolGet :: pool s1) s1) in *.
+        match goal with |- vstack (restore ?p ?y) = _ => destruct (restore_other p y) as (_ & _ & _ & _ & Q5 & _); rewrite Q5 end.
+        rewrite restoreState_vstack, (push_pop_vstack e s1' _ _ HI1' Hw). exact Hv1.
+      - unfold parseNotExpr, bind, modify, ret in Hp.
+        destruct (cloneState c s1) as [x s1'] eqn:Ecl.
+        destruct (clone_vstack _ _ _ HI1 Ecl) as [HI1' Hv1].
         change (set_maxFailInvert (negb (maxFailInvert (pushV s1'))) (pushV s1'))
           with (pushV (set_maxFailInvert (negb (maxFailInvert s1')) s1')) in Hp.
         set (s1'' := set_maxFailInvert (negb (maxFailInvert s1')) s1') in *.
         destruct (wrap e (pushV s1'')) as [[v b] s2|pv s2|] eqn:Hw; try discriminate.
         inversion Hp; subst.
-        match goal with |- vstack (restore ?p ?x) = _ => destruct (restore_other p x) as (_ & _ & _ & _ & Q5 & _); rewrite Q5 end.
-        cbn. apply (push_pop_vstack e s1'' _ _ (I_flip c _ _ (I_pool c _ _ HI1)) Hw).
+        match goal with |- vstack (restore ?p ?y) = _ => destruct (restore_other p y) as (_ & _ & _ & _ & Q5 & _); rewrite Q5 end.
+        rewrite restoreState_vstack. cbn.
+        pose proof (push_pop_vstack e s1'' _ _ (I_flip c _ _ HI1') Hw) as Hpp. cbn in Hpp. rewrite Hpp. exact Hv1.
       - unfold parseRuleRefExpr in Hp. destruct r0 as [|x r0]; [discriminate|].
         destruct (find_rule (x :: r0) (cG c)) as [ru|] eqn:Hf.
         + pose proof (find_rule_In _ _ _ Hf) as Hin.
@@ -163,6 +256,8 @@ Section Final.
     Variable ev : handlers -> option rule -> bool -> expr -> scope -> rsig -> rmu -> rres.
     Hypothesis Hwrap : wrap_spec c wrap.
     Hypothesis Hsim : sim_spec c wrap ev.
+    Hypothesis Hev_st : has_state (cT c) = false -> forall H R inv e sc g m v g' sc' m',
+      ev H R inv e sc g m = ROk v g' sc' m' -> g_st g' = g_st g.
     Hypothesis Hclosed_ref : forall H R inv e sc g m, scope_closed e = true ->
       ev H R inv e sc g m = set_scope sc (ev H R inv e [] g m).
     Hypothesis Hclosed_impl : forall e s r s', I c s -> scope_closed e = true ->
@@ -203,13 +298,13 @@ Section Final.
         + eapply sim_not; eauto.
         + eapply sim_lab; eauto.
         + eapply sim_act; eauto.
-        + pose proof (sim_pred c Hhs Hstale KAnd false c0 s1 sc g m1 H R inv (or_introl eq_refl) HI1 S1) as Hp.
+        + pose proof (sim_pred c ev Hst Hev_st Hstale KAnd false c0 s1 sc g m1 H R inv (or_introl eq_refl) HI1 S1) as Hp.
           exact Hp.
-        + pose proof (sim_pred c Hhs Hstale KNot true c0 s1 sc g m1 H R inv (or_intror eq_refl) HI1 S1) as Hp.
+        + pose proof (sim_pred c ev Hst Hev_st Hstale KNot true c0 s1 sc g m1 H R inv (or_intror eq_refl) HI1 S1) as Hp.
           cbn [run_block] in *.
           destruct (run_block KNot c0 (ce_pred (cE c)) _ m1) as [[[[ok err] st'] m']|[pv m']]; [|exact Hp].
           destruct ok; exact Hp.
-        + rewrite Hhs. eapply sim_stc; eauto.
+        + cbn in He. rewrite He. eapply sim_stc; eauto.
         + eapply sim_ref; eauto.
         + destruct He as (He1 & He2 & He3). eapply sim_rec; eauto.
         + eapply sim_throw; eauto.
@@ -244,6 +339,8 @@ Section Final.
                 (reval_step (reval c f) f H R inv e sc g m)).
       apply sim_body; auto.
       + apply parseExprWrap_inv.
+      + intros Hh H0 R0 inv0 e0 sc0 g0 m0 v g' sc' m' E.
+        destruct Hst as [Hs|[_ Hfree]]; [congruence|]. eapply reval_st_free; eauto.
       + intros. apply reval_closed. assumption.
       + intros. eapply wrap_closed_vstack; eauto.
   Qed.
